@@ -65,6 +65,10 @@ def gen_rulebook(rng, depth=3, prefix="undo", allow=DEFAULT_ALLOW, lvl=0, tag=""
                 r.children = gen_rulebook(rng, depth, prefix, allow, lvl + 1, tag + str(i))
                 if "logic" in allow and lvl == 0 and rng.random() < 0.15:
                     r.logic = "common.permanent"  # the shipped use: interface blocks that cannot be deleted
+                elif "urblocks" in allow and toks[-1] != "~" and rng.random() < 0.5:
+                    # a block whose header carries a value after its key (`peer 10.0.0.1 as-number 100`): changing the value
+                    # re-creates the block, which undo_redo is for
+                    r.logic = "common.undo_redo"
         else:
             if "logic" in allow:
                 r.logic = rng.choice(LOGICS)
@@ -127,7 +131,7 @@ def gen_tree(rng, level, inherited=(), depth=0, maxdepth=4, fill=0.6, foreign=0.
             if r.pat == "~":
                 row = " ".join([rng.choice(["z1", "z2", "z3"])] + [rng.choice(KEYS + EXTRA) for _ in range(rng.randint(0, 2))])
             else:
-                row = instantiate(rng, r.pat, long_rows=(not r.children and not r.ordered and r.logic != "common.permanent"))
+                row = instantiate(rng, r.pat, long_rows=((not r.children or r.logic == "common.undo_redo") and not r.ordered and r.logic != "common.permanent"))
             rows.append(row)
     if foreign and rng.random() < foreign:
         rows.append("f%d %s" % (depth, rng.choice(KEYS)))
@@ -145,7 +149,7 @@ def gen_tree(rng, level, inherited=(), depth=0, maxdepth=4, fill=0.6, foreign=0.
             continue
         seen.add(ident)
         sub = odict()
-        exact = s[0].pat.split()[-1] == "~" or len(row.split()) == len(s[0].pat.split())
+        exact = s[0].pat.split()[-1] == "~" or len(row.split()) == len(s[0].pat.split()) or (s[0].children and s[0].logic == "common.undo_redo")
         if depth < maxdepth and exact and (s[2] or s[3]) and (s[0].children or s[0].pat == "~"):
             if s[0].children or (s[0].rewrite and rng.random() < 0.4) or (s[0].pat == "~" and s[3] and rng.random() < 0.15):
                 sub = gen_tree(rng, s[2], s[3], depth + 1, maxdepth, fill, foreign)
@@ -169,7 +173,8 @@ def mutate_tree(rng, tree, level, inherited=(), depth=0, maxdepth=4, rate=0.3):
             # same key, different text (when the pattern allows trailing words) or different key
             has_kids = bool(ch)
             if s[0].pat != "~":
-                cand = instantiate(rng, s[0].pat, long_rows=(not s[0].children and not has_kids and not s[0].ordered and s[0].logic != "common.permanent"))
+                cand = instantiate(rng, s[0].pat, long_rows=(((not s[0].children and not has_kids) or (s[0].children and s[0].logic == "common.undo_redo"))
+                                                              and not s[0].ordered and s[0].logic != "common.permanent"))
             else:
                 cand = row if has_kids else row + " " + rng.choice(EXTRA)
             new_row = cand
